@@ -447,7 +447,7 @@ Proof.
 Qed.
 
 (* ------------------------------------------------------------------------------------------ *)
-(** * The cardinality tables (Gen.Facts / Gen.FactsC20, regenerated from the source) *)
+(** * The cardinality tables (Gen.Facts: const.Cardinality; Gen.FactsC20: observed on the probes) *)
 
 (* _CARDINALITY, const.Cardinality, the if-chain of render and client.*Method._cardinality fit together *)
 Lemma cardinality_tables cs ss :
@@ -460,7 +460,7 @@ Lemma cardinality_injective cs ss cs' ss' :
 Proof. destruct cs, ss, cs', ss'; vm_compute; intros H; try reflexivity; discriminate. Qed.
 
 Lemma cardinality_onto :
-  length cardinality_members = 4%nat /\ length plugin_cardinality = 4%nat /\
+  length cardinality_members = 4%nat /\ length flags_cardinality = 4%nat /\
   forallb (fun nf => match cardinality_of (fst (snd nf)) (snd (snd nf)) with
                      | Some c => zlist_eqb c (fst nf)
                      | None => false
@@ -1237,15 +1237,35 @@ Proof.
 Qed.
 
 (* ------------------------------------------------------------------------------------------ *)
-(** * Literals of the source (regenerated facts) *)
+(** * The model agrees with what the plugin answered on the probes (Gen.FactsC20, observed on every run) *)
 
-Lemma source_facts :
-  strip_suffixes = [[46; 112; 114; 111; 116; 111; 100; 101; 118; 101; 108]; [46; 112; 114; 111; 116; 111]] /\
-  base_replacements = [(45, 95); (47, 46)] /\
-  pb2_suffix = [95; 112; 98; 50] /\ grpc_suffix = [95; 103; 114; 112; 99] /\
-  out_replace = (46, 47) /\ out_suffix = [46; 112; 121] /\
-  route_format = [47; 123; 125; 47; 123; 125] /\ qual_format = [123; 125; 46; 123; 125].
-Proof. repeat split; reflexivity. Qed.
+Definition names_agree (r : str * (str * str)) : bool :=
+  zlist_eqb (pb2_module_name (fst r)) (fst (snd r)) && zlist_eqb (out_file_name (fst r)) (snd (snd r)).
+Definition route_agrees (r : (str * (str * str)) * (str * str)) : bool :=
+  let want := route (fst (fst r)) (fst (snd (fst r))) (snd (snd (fst r))) in
+  zlist_eqb want (fst (snd r)) && zlist_eqb want (snd (snd r)).
+
+Lemma source_probes :
+  forallb names_agree names_probe = true /\ forallb route_agrees route_probe = true /\
+  Nat.leb 20 (length names_probe) = true /\ Nat.leb 40 (length route_probe) = true /\
+  existsb (fun r => negb (nonempty (fst (fst r)))) route_probe = true.
+Proof. vm_compute. repeat split; reflexivity. Qed.
+
+Lemma names_probe_In p m o :
+  In (p, (m, o)) names_probe -> pb2_module_name p = m /\ out_file_name p = o.
+Proof.
+  intros Hin. destruct source_probes as [H _]. rewrite forallb_forall in H. specialize (H _ Hin).
+  unfold names_agree in H. cbn [fst snd] in H. apply andb_true_iff in H as [H1 H2].
+  apply zlist_eqb_eq in H1, H2. auto.
+Qed.
+
+Lemma route_probe_In pkg svc m rb rs :
+  In ((pkg, (svc, m)), (rb, rs)) route_probe -> route pkg svc m = rb /\ route pkg svc m = rs.
+Proof.
+  intros Hin. destruct source_probes as [_ [H _]]. rewrite forallb_forall in H. specialize (H _ Hin).
+  unfold route_agrees in H. cbn [fst snd] in H. apply andb_true_iff in H as [H1 H2].
+  apply zlist_eqb_eq in H1, H2. auto.
+Qed.
 
 (* ------------------------------------------------------------------------------------------ *)
 (** * Statements in the form used by Props/C20.v *)
